@@ -74,7 +74,11 @@ class StaticCondensation(Module):
         C = np.zeros((self.n, len(self.m)), dtype=float)
         C[self.m, ...] = np.eye(len(self.m))
         C[self.f, ...] = -self.X
-        return C @ dfdB @ C.T if isinstance(dfdB, DyadCarrier) else DyadCarrier(list(C.T), list(np.asarray(dfdB @ C.T)))
+        # Left counterpart of C with A_ff^-T A_mf^T, which only equals X for a symmetric matrix
+        Amf = self.sig_in[0].state[self.m, ...][..., self.f]
+        Cl = C.copy()
+        Cl[self.f, ...] = -self.module_LinSolve.solver.solve(np.asarray(Amf.T.todense()), trans='T')
+        return Cl @ dfdB @ C.T if isinstance(dfdB, DyadCarrier) else DyadCarrier(list(Cl.T), list(np.asarray(dfdB @ C.T)))
 
 
 class SystemOfEquations(Module):
